@@ -1258,7 +1258,7 @@ class ElectrumX(SessionBase):
         hashX = scripthash_to_hashX(scripthash)
         return self.unsubscribe_hashX(hashX) is not None
 
-    async def _merkle_proof(self, cp_height, height):
+    async def _merkle_proof(self, cp_height, height, raw_header):
         max_height = self.db.state.height
         if not height <= cp_height <= max_height:
             raise RPCError(BAD_REQUEST,
@@ -1271,6 +1271,10 @@ class ElectrumX(SessionBase):
         except self.db.DBError as e:
             # A reorg can take the chain below cp_height whilst the headers are being read
             raise RPCError(BAD_REQUEST, f'db error: {e!r}') from None
+        # A reorg can replace the header between it being read and its proof being built
+        header_hash = self.coin.header_hash(raw_header)
+        if self.db.merkle.root_from_proof(header_hash, branch, height) != root:
+            raise RPCError(BAD_REQUEST, f'header at height {height:,d} changed during the request')
         return {
             'branch': [hash_to_hex_str(elt) for elt in branch],
             'root': hash_to_hex_str(root),
@@ -1281,12 +1285,12 @@ class ElectrumX(SessionBase):
         dictionary with a merkle proof.'''
         height = non_negative_integer(height)
         cp_height = non_negative_integer(cp_height)
-        raw_header_hex = (await self.session_mgr.raw_header(height)).hex()
+        raw_header = await self.session_mgr.raw_header(height)
         self.bump_cost(1.25 - (cp_height == 0))
         if cp_height == 0:
-            return raw_header_hex
-        result = {'header': raw_header_hex}
-        result.update(await self._merkle_proof(cp_height, height))
+            return raw_header.hex()
+        result = {'header': raw_header.hex()}
+        result.update(await self._merkle_proof(cp_height, height, raw_header))
         return result
 
     async def block_headers(self, start_height, count, cp_height=0):
@@ -1308,7 +1312,8 @@ class ElectrumX(SessionBase):
         if count and cp_height:
             cost += 1.0
             last_height = start_height + count - 1
-            result.update(await self._merkle_proof(cp_height, last_height))
+            last_header = headers[-(len(headers) // count):]
+            result.update(await self._merkle_proof(cp_height, last_height, last_header))
         self.bump_cost(cost)
         return result
 
